@@ -516,7 +516,26 @@ const (
 	kEnableWeb   = "restart-with-web-enabled" // not a subject operation: the node restarts with didmethods [web nuts] and migrates (real MigrateAddWebToNuts)
 )
 
-var kinds = []string{kCreate, kAddSvc, kUpdSvc, kDelSvc, kAddVM, kDeactivate, kDupSvc, kDelUnknown, kUpdSame, kAddSame, kDeactivate2}
+// operations on a subject that was deactivated: a subject with a did:nuts DID cannot change any more (the network refuses updates of a deactivated
+// document), so the operation must be refused and no DID of the subject may change; for a subject with only a did:web DID the statement does not say
+const afterDeactivation = "-after-deactivation"
+
+var (
+	kDeadAddVM  = kAddVM + afterDeactivation
+	kDeadAddSvc = kAddSvc + afterDeactivation
+	kDeadUpdSvc = kUpdSvc + afterDeactivation
+	kDeadDelSvc = kDelSvc + afterDeactivation
+)
+
+// base is the kind of call an operation is; onDeactivated tells that it addresses a deactivated subject.
+func base(kind string) string { return strings.TrimSuffix(kind, afterDeactivation) }
+func onDeactivated(o op) bool { return strings.HasSuffix(o.Kind, afterDeactivation) }
+func refusedByMethod(k string) bool {
+	return k == kDupSvc || k == kDeactivate2 || strings.HasSuffix(k, afterDeactivation)
+}
+
+var kinds = []string{kCreate, kAddSvc, kUpdSvc, kDelSvc, kAddVM, kDeactivate, kDupSvc, kDelUnknown, kUpdSame, kAddSame, kDeactivate2,
+	kDeadAddVM, kDeadAddSvc, kDeadUpdSvc, kDeadDelSvc}
 
 func (o op) service() did.Service { return did.Service{Type: o.Type, ServiceEndpoint: o.Endpoint} }
 func fragment(typ, endpoint string) string {
@@ -625,6 +644,7 @@ func genSequence(rnd *rand.Rand, idx int, cfg config) []op {
 		services map[string]string
 		dead     bool
 		again    bool // a repeated deactivation is in the sequence
+		deadOps  int  // operations generated for it after its deactivation
 	}
 	nSubj := 1 + rnd.Intn(3)
 	length := 6 + rnd.Intn(5)
@@ -669,14 +689,41 @@ func genSequence(rnd *rand.Rand, idx int, cfg config) []op {
 		for _, s := range subs {
 			if !s.dead {
 				live = append(live, s)
-			} else if !s.again {
+			} else if !s.again || s.deadOps < 3 {
 				dead = append(dead, s)
 			}
 		}
-		if len(dead) > 0 && (len(live) == 0 || rnd.Intn(4) == 0) {
+		if len(dead) > 0 && (len(live) == 0 || rnd.Intn(2) == 0) {
 			s := dead[rnd.Intn(len(dead))]
-			s.again = true
-			seq = append(seq, op{Kind: kDeactivate2, Subject: s.name})
+			if !s.again && (s.deadOps >= 3 || rnd.Intn(3) == 0) {
+				s.again = true
+				seq = append(seq, op{Kind: kDeactivate2, Subject: s.name})
+				continue
+			}
+			// an operation on the deactivated subject; update and delete address a service it had when it was deactivated (if any)
+			s.deadOps++
+			serial++
+			t, old := fmt.Sprintf("gone%d", serial), "https://example.com/gone"
+			var types []string
+			for x := range s.services {
+				types = append(types, x)
+			}
+			sort.Strings(types)
+			if len(types) > 0 {
+				t = types[rnd.Intn(len(types))]
+				old = s.services[t]
+			}
+			ep := fmt.Sprintf("https://example.com/%s/late%d", s.name, serial)
+			switch rnd.Intn(4) {
+			case 0:
+				seq = append(seq, op{Kind: kDeadAddVM, Subject: s.name})
+			case 1:
+				seq = append(seq, op{Kind: kDeadAddSvc, Subject: s.name, Type: fmt.Sprintf("late%d", serial), Endpoint: ep})
+			case 2:
+				seq = append(seq, op{Kind: kDeadUpdSvc, Subject: s.name, Type: t, Endpoint: ep, Old: old})
+			default:
+				seq = append(seq, op{Kind: kDeadDelSvc, Subject: s.name, Type: t, Old: old})
+			}
 			continue
 		}
 		if len(subs) < nSubj && (len(live) == 0 || rnd.Intn(4) == 0) {
@@ -839,7 +886,7 @@ func (p *pass) exec(o op) (err error, stopped *stop) {
 		}
 	}()
 	m := p.mgr
-	switch o.Kind {
+	switch base(o.Kind) {
 	case kCreate, kCreateDup:
 		_, _, err = m.Create(ctx(), didsubject.DefaultCreationOptions().With(didsubject.SubjectCreationOption{Subject: o.Subject}))
 	case kAddSvc, kDupSvc, kAddSame:
@@ -1055,7 +1102,7 @@ func wantServices(o op, before []string) []string {
 			w = append(w, x)
 		}
 	}
-	switch o.Kind {
+	switch base(o.Kind) {
 	case kAddSvc, kAddSame, kDupSvc:
 		add(fragment(o.Type, o.Endpoint) + ":" + o.Type)
 	case kUpdSvc, kUpdSame:
@@ -1087,7 +1134,7 @@ func effect(o op, before *didSnap, after didSnap) string {
 	switch {
 	case o.Kind == kCreate:
 		wantVMs = 1
-	case o.Kind == kAddVM:
+	case base(o.Kind) == kAddVM:
 		wantVMs++
 	case deactivates(o):
 		wantVMs = 0
@@ -1105,8 +1152,8 @@ func effect(o op, before *didSnap, after didSnap) string {
 			}
 		}
 	}
-	if deactivates(o) != after.Deactivated {
-		return fmt.Sprintf("deactivated=%v", after.Deactivated)
+	if (wantVMs == 0) != after.Deactivated { // a document without keys is what a deactivated DID shows
+		return fmt.Sprintf("deactivated=%v with %d verification methods", after.Deactivated, len(after.VMs))
 	}
 	return ""
 }
@@ -1116,6 +1163,7 @@ func effect(o op, before *didSnap, after didSnap) string {
 type plan struct {
 	early    bool            // refused inside the first database transaction: nothing is written, no boundary is passed
 	natural  bool            // the real did:nuts manager refuses to publish this on its own
+	optional bool            // the statement does not say whether the operation is to be accepted (deactivated subject without a did:nuts DID)
 	changed  map[string]bool // methods whose document gets a new version in the first transaction
 	required map[string]bool // methods whose document gets new CONTENT; the others of 'changed' are written again as they are
 }
@@ -1148,17 +1196,18 @@ func (p *pass) plan(o op, pre *snapshot) plan {
 		return pl
 	}
 	for _, d := range pre.Subjects[o.Subject].DIDs {
-		alters := o.Kind == kAddVM || o.Kind == kDeactivate || !reflect.DeepEqual(wantServices(o, d.Services), d.Services)
+		alters := base(o.Kind) == kAddVM || o.Kind == kDeactivate || !reflect.DeepEqual(wantServices(o, d.Services), d.Services)
 		if alters {
 			pl.required[d.Method] = true
 		}
 		if alters || o.Kind != kAddSame {
 			pl.changed[d.Method] = true
 		}
-		if d.Method == "nuts" && (o.Kind == kDupSvc || o.Kind == kDeactivate2) {
+		if d.Method == "nuts" && refusedByMethod(o.Kind) {
 			pl.natural = true
 		}
 	}
+	pl.optional = onDeactivated(o) && !pl.natural
 	return pl
 }
 
@@ -1222,7 +1271,7 @@ func (p *pass) compare(o op, pl plan, phase, class string, tookEffect bool, pre,
 				p.count("rewrites_of_unchanged_documents_kept_without_publish", 1)
 			} else {
 				key := "C13/not-rolled-back/" + o.Kind + "/after-" + class
-				what := "the operation failed but the subject does not show its previous state after the sweep"
+				what := "the operation did not (or must not) take effect but the subject does not show its previous state after the sweep"
 				if len(b.DIDs) == len(a.DIDs) {
 					var moved, stayed []string
 					for i := range a.DIDs {
@@ -1405,6 +1454,9 @@ func (p *pass) run() {
 				class = "commit-error"
 			}
 		}
+		if !fired && stopped == nil && !a.commitFailed && !a.dbFailed && !a.swept {
+			class = "no-fault" // nothing was injected (the operation ended before the fault's point): the key names what happened, not the site
+		}
 		natural := pl.natural
 		if !fired {
 			// a fault behind the point at which the real method manager refuses on its own is not reachable
@@ -1445,6 +1497,10 @@ func (p *pass) run() {
 		post := p.e.snap(o.Subject)
 
 		tookEffect := err == nil && stopped == nil
+		if onDeactivated(o) && natural && publishedNow {
+			p.violation("C13/published-after-deactivation/"+o.Kind, "a document was published for the did:nuts DID of a deactivated subject", o, "first attempt", pre, post, nil)
+			return
+		}
 		switch {
 		case stopped != nil || dbFailed:
 			// cut short between the database write and the end of the clean-up: what the network method published decides
@@ -1474,13 +1530,27 @@ func (p *pass) run() {
 		case err != nil && pl.early:
 			p.count("refusals_inside_first_transaction", 1)
 			class = "refusal"
+		case pl.optional && !a.commitFailed:
+			// a deactivated subject that has no did:nuts DID: accepted or refused, all-or-nothing is demanded of whichever it is
+			if err != nil {
+				p.r.Unspecified("operation-on-deactivated-subject-without-did-nuts/refused")
+			} else {
+				p.r.Unspecified("operation-on-deactivated-subject-without-did-nuts/accepted")
+			}
+			p.count("operations_on_deactivated_subject_without_did_nuts", 1)
 		case err != nil && !a.commitFailed && !natural:
 			p.violation("C13/further-operation-failed/"+o.Kind, "an operation without an injected failure failed: "+err.Error(), o, "first attempt", pre, post, nil)
 			return
 		case err == nil && pl.early:
 			p.r.Unspecified("operation-expected-to-be-refused-was-accepted/" + o.Kind)
+		case err == nil && natural && onDeactivated(o):
+			// the did:nuts DID of a deactivated subject can never show the change, so the operation has to be refused and nothing may have changed:
+			// the database must not show another did:nuts document than the network, no DID may have moved
+			p.count("operations_on_deactivated_subject_accepted", 1)
+			tookEffect = false
+			p.agreement(o, "after the operation on a deactivated subject was accepted", pre, post)
 		case err == nil && natural:
-			p.r.Unspecified("second-service-of-a-type-accepted")
+			p.r.Unspecified("refusal-by-method-expected-but-accepted/" + o.Kind)
 		case err == nil && a.commitFailed:
 			p.violation("C13/commit-error-swallowed/"+o.Kind, "the network method's commit failed but the operation reported success", o, "first attempt", pre, post, nil)
 		}
@@ -1509,7 +1579,7 @@ func (p *pass) run() {
 		if tookEffect {
 			p.settle(o)
 		}
-		if !tookEffect && !natural && !pl.early {
+		if !tookEffect && !natural && !pl.early && !pl.optional {
 			// the repeated attempt
 			pre2 := post
 			p.cur = &armed{} // record boundaries and pending keys, no fault
@@ -1729,7 +1799,7 @@ func TestCheck(t *testing.T) {
 	r.SetRule("cases = (generated operation sequence over 1-3 subjects under a node configuration, fault site, operation): sequence n runs with didmethods [web nuts] (5 of 8), " +
 		"[nuts], [web], or [nuts] with a restart that enables did:web mid-way (real start-up migration; the documents of a subject differ from then on); besides operations that " +
 		"alter every document a sequence holds operations that alter none or some (unknown service deleted, service updated to itself, service added twice, second deactivation, " +
-		"creation of an existing subject). Every operation of every sequence is executed once per fault site that exists under the configuration " +
+		"creation of an existing subject) and operations on a deactivated subject (add key, add/update/delete service: must be refused without any change when the subject has a did:nuts DID). Every operation of every sequence is executed once per fault site that exists under the configuration " +
 		"(stop at each boundary of transactionHelper, commit error / network refusal of the did:nuts method, stop inside the publish, failing clean-up transaction, sweep while in flight), " +
 		"then restart, ageing by SQL, the real rollback sweep, a snapshot comparison (Resolver, ListDIDs, FindServices, version rows, change log, didstore, publish ledger) against a " +
 		"reference computed from the operation and the state before it, and a retry when the operation did not take effect. A case is non-trivial when the fault of its site actually " +
@@ -1850,8 +1920,7 @@ func TestCheck(t *testing.T) {
 	missing := []string{}
 	for _, s := range sites[1:] {
 		for _, k := range kinds {
-			refusedByMethod := k == kDupSvc || k == kDeactivate2
-			if byFault[s.Name+"/"+k] == 0 && !(refusedByMethod && (s.Refuse || s.NetStop != "")) {
+			if byFault[s.Name+"/"+k] == 0 && !(refusedByMethod(k) && (s.Refuse || s.NetStop != "")) {
 				missing = append(missing, s.Name+"/"+k)
 			}
 		}
